@@ -24,7 +24,7 @@ class Unsupported(Exception):
 
 
 # ----------------------------------------------------------------------------- tokenizer / parser
-TOK = re.compile(r"\s*(?:(\d[\d_]*(?:u\d+|i\d+|usize)?)|([A-Za-z_][A-Za-z0-9_]*)|(::|->|=>|==|!=|<<|&&|\|\||[-+*/&|!.,;:(){}\[\]<>=#'])|(\"(?:[^\"\\\\]|\\\\.)*\"))")
+TOK = re.compile(r"\s*(?:(\d[\d_]*(?:u\d+|i\d+|usize)?)|([A-Za-z_][A-Za-z0-9_]*)|(::|->|=>|==|!=|<<|&&|\|\||[-+*/&|!.,;:(){}\[\]<>=#'?])|(\"(?:[^\"\\\\]|\\\\.)*\"))")
 
 
 def tokenize(src):
@@ -91,7 +91,12 @@ class Parser:
             else:
                 e = self.expr()
                 if self.at(";"):
-                    raise Unsupported("expression statement")
+                    if e[0] != "try":
+                        raise Unsupported("expression statement")
+                    # `expr?;` : only the early return matters
+                    self.next()
+                    stmts.append(("let", ("name", "_"), e))
+                    continue
                 tail = e
                 break
         if self.peek()[0] != "eof":
@@ -171,10 +176,23 @@ class Parser:
         self.expect("|")
         params = []
         while not self.at("|"):
-            tok = self.next()
-            if tok[0] != "id":
-                raise Unsupported("closure parameter pattern")
-            params.append(tok[1])
+            pat = self.pattern()
+            if self.at(":"):
+                # type annotation: skipped up to the `,` or closing `|` at nesting depth 0
+                self.next()
+                depth = 0
+                while True:
+                    tok = self.peek()
+                    if tok[0] == "eof":
+                        raise Unsupported("unterminated closure parameter type")
+                    if tok[1] in ("<", "(", "["):
+                        depth += 1
+                    elif tok[1] in (">", ")", "]"):
+                        depth -= 1
+                    elif depth == 0 and tok[1] in (",", "|"):
+                        break
+                    self.next()
+            params.append(pat[1] if pat[0] == "name" else pat)
             if self.at(","):
                 self.next()
         self.next()
@@ -216,6 +234,9 @@ class Parser:
                 idx = self.expr()
                 self.expect("]")
                 e = ("index", e, idx)
+            elif self.at("?"):
+                self.next()
+                e = ("try", e)
             else:
                 return e
 
@@ -235,6 +256,21 @@ class Parser:
                     self.next()
             self.next()
             return ("tuple", items)
+        if tok[0] == "id" and self.at("!") and self.peek(1)[1] == "(":
+            # any other macro call: opaque value, arguments skipped
+            self.next()
+            depth = 0
+            while True:
+                t2 = self.next()
+                if t2[0] == "eof":
+                    raise Unsupported("unterminated macro call")
+                if t2 == ("p", "("):
+                    depth += 1
+                elif t2 == ("p", ")"):
+                    depth -= 1
+                    if depth == 0:
+                        break
+            return ("macro", tok[1])
         if tok[1] == "[" and tok[0] == "p":
             items = []
             while not self.at("]"):
@@ -411,6 +447,7 @@ class Env:
         self.hyps = []
         self.fresh_n = 0
         self.case = {}
+        self.path = None   # conjunction of the `?` conditions passed so far (None: no `?` met)
 
     def fresh(self, hint):
         self.fresh_n += 1
@@ -443,7 +480,11 @@ def ev(env, e, loc):
             if len(args) != len(params):
                 raise Unsupported("closure arity")
             l2 = dict(loc)
-            l2.update(zip(params, args))
+            for prm, a in zip(params, args):
+                if isinstance(prm, str):
+                    l2[prm] = a
+                else:
+                    bind(l2, prm, a)
             if body[0] == "expr":
                 return ev(env, body[1], l2)
             for _, pat, ex in body[1]:
@@ -452,6 +493,14 @@ def ev(env, e, loc):
                 raise Unsupported("closure block without tail expression")
             return ev(env, body[2], l2)
         return call
+    if k == "try":
+        v = ev(env, e[1], loc)
+        if not isinstance(v, Opt):
+            raise Unsupported("`?` on a value that is not Option/Result-like")
+        env.path = v.cond if env.path is None else b_and(env.path, v.cond)
+        return v.value
+    if k == "macro":
+        return Struct("Opaque", {"_name": e[1] + "!"})
     if k == "tuple":
         return Tuple([ev(env, x, loc) for x in e[1]])
     if k == "struct":
@@ -556,7 +605,13 @@ def run_body(env, body_text, loc):
         bind(loc, pat, ev(env, e, loc))
     if tail is None:
         raise Unsupported("no tail expression")
-    return ev(env, tail, loc), loc
+    out = ev(env, tail, loc)
+    if env.path is not None:
+        # early returns through `?`: the function yields its tail value only on the path where every `?` passed
+        if not isinstance(out, Opt):
+            raise Unsupported("`?` in a function whose tail is not Option/Result-like")
+        out = Opt(out.value, b_and(env.path, out.cond))
+    return out, loc
 
 
 # ----------------------------------------------------------------------------- standard field methods
